@@ -66,9 +66,9 @@ let () =
                 (if in_F lines then "1" else "0") ^ " " ^ String.concat " " (List.map (fun c -> string_of_int (int_of_n c)) (html lines))
               | [] -> "ERR empty")
            | "RULES" ->
-             (* 16 numbers, punctuation string, hr style string, npieces, pieces *)
+             (* 17 numbers, punctuation string, hr style string, npieces, pieces *)
              let rec take k l = if k = 0 then ([], l) else (match l with x :: r -> let (a, b) = take (k - 1) r in (x :: a, b) | [] -> failwith "short") in
-             let (ps, rest) = take 16 args in
+             let (ps, rest) = take 17 args in
              let (punct, rest) = take_str rest in
              let (hr, rest) = take_str rest in
              (match rest with
@@ -78,6 +78,13 @@ let () =
                 let nums l = String.concat "," (List.map (fun x -> string_of_int (int_of_nat x)) l) in
                 (if in_F (lines_of_pieces pieces) then "1" else "0") ^ " " ^
                 String.concat ";" (List.map (fun (id, v) -> string_of_int (int_of_nat id) ^ ":" ^ nums v.must ^ "|" ^ nums v.open_) res)
+              | [] -> "ERR empty")
+           | "LEAFPOS" ->
+             (match args with
+              | n :: rest ->
+                let (pieces, _) = take_strs n rest in
+                (if in_F (lines_of_pieces pieces) then "1" else "0") ^ " " ^
+                String.concat ";" (List.map (fun ((k, l), c) -> string_of_int (int_of_nat k) ^ "," ^ string_of_int (int_of_nat l) ^ "," ^ string_of_int (int_of_nat c)) (leaf_positions pieces))
               | [] -> "ERR empty")
            | "POS" ->
              (match args with
